@@ -28,6 +28,10 @@ pub enum ObsMode {
 
 pub struct ObsServer {
     pub mode: Arc<Mutex<ObsMode>>,
+    /// generation of the mode last set / last put into effect (listener bound or removed) by
+    /// the server thread: `set` returns only when the two agree
+    gen: Arc<AtomicU64>,
+    applied: Arc<AtomicU64>,
     pub path: PathBuf,
     stop: Arc<AtomicBool>,
     pub served: Arc<AtomicU64>,
@@ -40,16 +44,22 @@ impl ObsServer {
         let mode = Arc::new(Mutex::new(mode));
         let stop = Arc::new(AtomicBool::new(false));
         let served = Arc::new(AtomicU64::new(0));
-        let (m2, s2, p2, sv) = (mode.clone(), stop.clone(), path.clone(), served.clone());
+        let gen = Arc::new(AtomicU64::new(1));
+        let applied = Arc::new(AtomicU64::new(0));
+        let (m2, s2, p2, sv, g2, a2) = (mode.clone(), stop.clone(), path.clone(), served.clone(), gen.clone(), applied.clone());
         let handle = std::thread::spawn(move || {
             let mut listener: Option<UnixListener> = None;
             while !s2.load(Ordering::Relaxed) {
-                let mode = m2.lock().unwrap().clone();
+                let (mode, g) = {
+                    let m = m2.lock().unwrap();
+                    (m.clone(), g2.load(Ordering::SeqCst))
+                };
                 if mode == ObsMode::Refuse {
                     if listener.is_some() {
                         listener = None;
                         let _ = std::fs::remove_file(&p2);
                     }
+                    a2.fetch_max(g, Ordering::SeqCst);
                     std::thread::sleep(Duration::from_millis(2));
                     continue;
                 }
@@ -66,6 +76,7 @@ impl ObsServer {
                         }
                     }
                 }
+                a2.fetch_max(g, Ordering::SeqCst);
                 match listener.as_ref().unwrap().accept() {
                     Ok((mut s, _)) => {
                         s.set_nonblocking(false).ok();
@@ -94,12 +105,27 @@ impl ObsServer {
             }
             let _ = std::fs::remove_file(&p2);
         });
-        ObsServer { mode, path, stop, served, handle: Some(handle) }
+        let s = ObsServer { mode, gen, applied, path, stop, served, handle: Some(handle) };
+        s.wait_applied(1);
+        s
+    }
+    fn wait_applied(&self, g: u64) {
+        // no verdict depends on this bound: it only keeps a dead server thread from hanging the
+        // harness (the run then fails on its probes and the watchdog, not silently)
+        let t0 = std::time::Instant::now();
+        while self.applied.load(Ordering::SeqCst) < g && t0.elapsed() < Duration::from_secs(30) {
+            std::thread::sleep(Duration::from_millis(1));
+        }
     }
     pub fn set(&self, m: ObsMode) {
-        *self.mode.lock().unwrap() = m;
-        // give the server thread a moment to (un)bind
-        std::thread::sleep(Duration::from_millis(12));
+        let g = {
+            let mut mode = self.mode.lock().unwrap();
+            *mode = m;
+            self.gen.fetch_add(1, Ordering::SeqCst) + 1
+        };
+        // the server thread has bound (or removed) its listener for this mode when it
+        // acknowledges the generation: no fixed sleep, the machine may be loaded
+        self.wait_applied(g);
     }
 }
 
